@@ -162,6 +162,43 @@ def main(argv=None):
             else:
                 violations.append((component, label, replay_path))
 
+    # ---------------- mirsym part (loop-free integer MIR fragments -> z3) ----------------
+    for mod in spec.get("mirsym", []):
+        if args.only and args.only not in mod:
+            continue
+        d = run_mirsym(mod)
+        if d is None:
+            noverdict.append((mod, "mirsym worker failed"))
+            continue
+        for q in d.get("queries", []):
+            totals["queries"] += 1
+            totals["obligations"] += 1
+            totals["solver_s"] += q.get("s", 0)
+        samples.append(dict(engine="mirsym", check=mod, queries=d.get("queries"), vacuity_witnesses=d.get("witness"), wall_s=d.get("wall_s")))
+        functions += d.get("functions", [])
+        bounds.append("%s: all values of the u32 inputs (no unrolling: the fragments are loop-free); outside: %s" % (mod, "; ".join(d.get("outside", []))))
+        assumptions += d.get("assumptions", [])
+        for w in d.get("noverdict", []):
+            noverdict.append((mod, w))
+        print("[mirsym] %-40s %d queries, %d candidate violation(s), %.1fs" % (mod, len(d.get("queries", [])), len(d.get("violations", [])), d.get("wall_s", 0)), flush=True)
+        for i, v in enumerate(d.get("violations", [])):
+            component = "%s:%s" % (mod, (v.get("line") or ["?", 0])[0])
+            label = "%s %s" % (v["label"], json.dumps(v["assignment"], sort_keys=True))
+            rp = os.path.join(VERIF, "replay", prop, "%s_%d.mirsym.json" % (mod, i))
+            os.makedirs(os.path.dirname(rp), exist_ok=True)
+            with open(rp, "w") as f:
+                f.write("# mirsym %s\n" % mod)
+                json.dump(v, f, indent=1)
+            if v.get("reproduced"):
+                totals["traces_validated"] += 1
+                k = match_known(known, prop, component, label)
+                if k:
+                    known_hits.append((k, component, label))
+                else:
+                    violations.append((component, label + " (reproduced natively: %s)" % ",".join("%s rc=%s" % (m, x.get("rc")) for m, x in v["replay"].items() if isinstance(x, dict)), rp))
+            else:
+                noverdict.append((component, "solver assignment did not reproduce natively (or is too large to replay): %s ; replay=%s" % (label, rp)))
+
     wall = time.time() - t0
     for (k, component, label) in known_hits:
         print("KNOWN-FINDING: property=%s %s [%s: %s]" % (prop, k["what"], component, label[:120]))
@@ -204,6 +241,21 @@ def main(argv=None):
     return 0
 
 
+def run_mirsym(mod, extra=()):
+    import subprocess
+    env = dict(os.environ)
+    env["PYTHONPATH"] = os.path.join(VERIF, "lib")
+    try:
+        p = subprocess.run(["python3-vt", "-m", "mirsym." + mod] + list(extra), cwd=os.path.join(VERIF, "lib"), env=env, capture_output=True, text=True, timeout=3600)
+    except subprocess.TimeoutExpired:
+        return None
+    last = [l for l in p.stdout.splitlines() if l.startswith("{")]
+    if p.returncode != 0 or not last:
+        print((p.stderr or p.stdout)[-1500:])
+        return None
+    return json.loads(last[-1])
+
+
 def handle_candidate(prop, r, known, violations, known_hits, noverdict, totals):
     """Replay gate: a Kani counterexample becomes a VIOLATION only if the real build reproduces it."""
     h = r["harness"]
@@ -244,6 +296,15 @@ def replay_only(prop, spec, path):
         if first.startswith("# mirproto"):
             import mirproto_engine as M
             return M.replay_file(prop, spec.get("mirproto"), path)
+        if first.startswith("# mirsym"):
+            mod = first.split()[2]
+            v = json.loads(f.read())
+            d = run_mirsym(mod, ["--replay", json.dumps(v["assignment"])])
+            print(json.dumps(d))
+            if d and d.get("reproduced"):
+                print("VIOLATION property=%s replay=%s" % (prop, path))
+                return 1
+            return 0 if d else 2
         for tok in first[1:].split():
             if "=" in tok:
                 a, b = tok.split("=", 1)
